@@ -24,9 +24,11 @@ What is modelled (anchors in /repo/qats/app/gui.py):
   is shown in a *new* tab (the five result views are never touched).
 
 Assumptions (external behaviour, observed by the correspondence harness, not proved):
-* all files live in one directory, series names contain no path separators or pattern characters and are unique, so
-  `db.list(relative=True)` is `name` when every key comes from one file and `file/name` otherwise, and
-  `os.path.join(db.common, row text)` is the key again; `fnmatch` of a full key matches exactly that key;
+* the files' common directory is the parent of every file but (possibly) one that lies in a sub-directory, series names
+  contain no path separators or pattern characters (the same name may occur on several files), so
+  `db.list(relative=True)` is `name` when every key comes from one file and `file/name` otherwise (`file` = path below
+  the common directory), and `os.path.join(db.common, row text)` is the key again; `fnmatch` of a full key matches
+  exactly that key (the worker gets full keys, never list labels);
 * the library computations succeed on the inputs used (a worker that raises only logs the error);
 * the list filter is a plain sub-string of either a file name or a series name (`Pat`);
 * Qt delivers `result`/`error`/`finished` synchronously and in connection order; the sort applied by `tabulate_stats`
